@@ -6,7 +6,7 @@ ID = "C12"
 FAMILY = "charac"
 RULE = ("every format (string, bool, float, uint8/16/32, int32, uint64, data, tlv8) x permission sets x declared bounds "
         "(none, min only, max only, both; as found in the catalog) x sequences of 1..6 local / remote / getter-function "
-        "updates with values from a JSON-like generator: finite numbers of any magnitude and sign (incl. -0, 1e300, "
+        "updates (and declarations of a narrower range in between) with values from a JSON-like generator: finite numbers of any magnitude and sign (incl. -0, 1e300, "
         "non-integers, > 2^64), NaN/Inf (local only), numeric and non-numeric strings ('NaN', 'Inf', '1e999', '', 'true', "
         "'12', '-3', '1.5'), booleans, nil, arrays, objects, the same composite twice. strconv / platform conversions "
         "are annotated by this Python generator independently of Go. non-trivial = a value whose JSON kind differs "
@@ -223,6 +223,21 @@ def gen(rng, tier):
                 ops.insert(0, "ST:i:%d" % rng.choice([2, 3, 7, 8, 100]))
                 top = int(mx[2:])
                 ops += ["R:1:i:%d" % top, "L:i:%d" % (top - 1), "R:2:i:%d" % (top + 5)]
+            if f == "float" and mn != "-" and mx != "-" and rng.random() < 0.4:
+                # the application declares a narrower range after the first updates (as accessory.NewThermostat does), then
+                # values inside the old range but outside the new one arrive
+                lo, hi = [struct.unpack("<d", struct.pack("<Q", int(x[2:], 16)))[0] for x in (mn, mx)]
+                nlo, nhi = lo + (hi - lo) / 4, hi - (hi - lo) / 4
+                at = rng.randrange(0, len(ops) + 1)
+                ops.insert(at, "B:f:%016x,f:%016x" % (fbits(nlo), fbits(nhi)))
+                ops += ["R:1:" + ftok(hi), "L:" + ftok(lo), "R:2:" + ftok((nhi + hi) / 2), "GR:1:" + ftok((lo + nlo) / 2)]
+            elif f not in ("float", "bool", "string", "data", "tlv8") and rng.random() < 0.4:
+                lo, hi = (int(mn[2:]) if mn != "-" else 0), (int(mx[2:]) if mx != "-" else 200)
+                nlo, nhi = lo + max(1, (hi - lo) // 4), hi - max(1, (hi - lo) // 4)
+                if nlo <= nhi:
+                    at = rng.randrange(0, len(ops) + 1)
+                    ops.insert(at, "B:i:%d,i:%d" % (nlo, nhi))
+                    ops += ["R:1:i:%d" % hi, "L:i:%d" % lo, "R:2:i:%d" % (nhi + 1), "G:i:%d" % (nlo - 1)]
             cases.append({"id": "ch%d" % len(cases), "kind": f,
                           "line": "ch %s %s %s %s %s %s" % (f, perms, mn, mx, init, " ".join(ops))})
     return cases
@@ -258,7 +273,18 @@ def oracle(c, obs):
     f, mn, mx = t[1], t[3], t[4]
     head = obs.split(" cbs=")[0].split(" ")
     want = KIND.get(f, "i")
+    prev = t[5]
     for i, v in enumerate(head):
+        op = t[6 + i] if 6 + i < len(t) else ""
+        if op.startswith("B:"):
+            # the range is declared again: the stored value is left alone
+            mn, mx = op[2:].split(",")
+            if v != prev:
+                return "declaring the range again (operation #%d) changed the stored value from %s to %s" % (i, prev[:40], v[:40])
+            continue
+        was, prev = prev, v.split("!")[0]
+        if v == was and "!" not in v:
+            continue      # nothing stored by this operation
         if "!" in v:
             # the driver compares what a getter call hands out (with the application's get callback installed) with the stored value
             if "!getterpanic" in v:
